@@ -12,6 +12,8 @@ import (
 	"math"
 	"strings"
 
+	"google.golang.org/protobuf/types/known/wrapperspb"
+
 	"qchen.fun/fatchoy"
 	"qchen.fun/fatchoy/codec"
 	"qchen.fun/fatchoy/packet"
@@ -61,7 +63,7 @@ func DataFromSx(s Sx) []byte {
 
 // BodyFromSx builds the Go body value of a body descriptor:
 // (0) nil | (1 #b) []byte | (2 #b) string | (3 z) int64 | (4 bits) float64 | (5 seed len mask) []byte
-// | (7) []byte(nil) | (8) ""
+// | (7) []byte(nil) | (8) "" | (9 data) wrapperspb.BytesValue | (10 data) wrapperspb.StringValue (ASCII data)
 func BodyFromSx(s Sx) interface{} {
 	switch s.At(0).Int64() {
 	case 0:
@@ -76,6 +78,10 @@ func BodyFromSx(s Sx) interface{} {
 		return math.Float64frombits(s.At(1).Uint64())
 	case 5:
 		return DataFromSx(s)
+	case 9: // a protobuf message as body
+		return wrapperspb.Bytes(DataFromSx(s.At(1)))
+	case 10:
+		return wrapperspb.String(string(DataFromSx(s.At(1))))
 	case 7:
 		return []byte(nil) // a typed nil: not the nil interface
 	case 8:
